@@ -63,21 +63,21 @@ Lemma k6_objective : objective k6_m k6_sol = 13300%Z.
 Proof. vm_compute. reflexivity. Qed.
 
 (** optimality: the resource row bounds the objective of every feasible point by 100 * 133 *)
+Definition k6_its : list item :=
+  Eval vm_compute in (match all_items k6_inst k6_bs with Ok x => x | _ => [] end).
+Definition k6_W : list entry :=
+  [EVar (VX 1 0) KNat 200%Z; EVar (VX 1 1) KNat 300%Z;
+   ERow {| r_kind := RRes 1 0; r_terms := [(VX 1 0, 2%Z); (VX 1 1, 3%Z)]; r_le := true; r_bound := 133%Z |}].
+Lemma k6_m_eq : k6_m = k6_W ++ emit k6_inst k6_bs [] k6_its.
+Proof. vm_compute. reflexivity. Qed.
+
 Lemma k6_optimal : forall s', feasible k6_m s' = true -> (objective k6_m s' <= objective k6_m k6_sol)%Z.
 Proof.
-  intros s' Hf. rewrite k6_objective.
-  pose proof k6_milp as Hm. unfold milp_of in Hm.
-  destruct (all_items k6_inst k6_bs) as [its| |] eqn:Eits; cbn [bind] in Hm; try discriminate.
-  injection Hm as Hm.
-  assert (Hw : concat (mapi_from (fun i w => worker_entries k6_inst k6_bs (N.of_nat i) w) (i_workers k6_inst) 0)
-               = [EVar (VX 1 0) KNat 200%Z; EVar (VX 1 1) KNat 300%Z;
-                  ERow {| r_kind := RRes 1 0; r_terms := [(VX 1 0, 2%Z); (VX 1 1, 3%Z)]; r_le := true; r_bound := 133%Z |}])
-    by (vm_compute; reflexivity).
-  rewrite Hw in Hm. clear Hw. rewrite <- Hm in Hf |- *. clear Hm.
+  intros s' Hf. rewrite k6_objective. rewrite k6_m_eq in Hf |- *.
   rewrite feasible_app in Hf. apply andb_true_iff in Hf. destruct Hf as [Hf _].
   rewrite objective_app, objective_emit.
-  unfold feasible in Hf. cbn [forallb entry_ok row_ok row_lhs r_le r_terms r_bound fold_right fst snd] in Hf.
-  unfold objective. cbn [fold_right]. lia.
+  unfold feasible, k6_W in Hf. cbn [forallb entry_ok row_ok row_lhs r_le r_terms r_bound fold_right fst snd] in Hf.
+  unfold objective, k6_W. cbn [fold_right]. lia.
 Qed.
 
 Lemma k6_mapping : mapping_ok k6_inst k6_bs k6_sol k6_dispatch = true.
